@@ -263,15 +263,11 @@ func (cur *Cursor) CheckLemmas(p *Prog, c *Check, rule string) bool {
 						continue
 					}
 					// stored only where no error is recorded yet (`if b.err == nil { b.err = err }`): nothing is overwritten
+					// (the error must still be known nil where the store is made: a test at the top of the function does
+					// not cover a store behind reads that may have set it — followed by the sticky-error flow)
 					guarded := false
-					for _, dc := range domConds(b) {
-						if subj, isNil, ok := nilTestOf(dc.cond, dc.truth); ok && isNil {
-							if ld, ok := subj.(*ssa.UnOp); ok && ld.Op == token.MUL {
-								if lb, ok := cur.isField(ld.X, cur.E); ok && lb == ebase {
-									guarded = true
-								}
-							}
-						}
+					if stt, ok := p.stickyStateAt(cur, fn, ebase, s, 0); ok && stt.reached && stt.known == 1 {
+						guarded = true
 					}
 					if guarded {
 						continue
@@ -444,8 +440,9 @@ func (cur *Cursor) CheckLemmas(p *Prog, c *Check, rule string) bool {
 			return
 		}
 		if st.entryE == 0 {
-			// nothing was done and nothing is known: a path that returns at once
-			nsticky++
+			// nothing was done and the error was never looked at: a read that silently does nothing (`if b.optional
+			// && b.atEnd() { return }` in front of everything) — the caller goes on as if a value had been read
+			report(b, "exit that neither sets a non-nil error nor advances the offset within bounds: the primitive returns without reading, although no error is known to be set", Undecided)
 			return
 		}
 		// the error field as the path leaves it
